@@ -10,14 +10,14 @@ use iceoryx2_bb_lock_free::mpmc::bit_set::FixedSizeBitSet;
 use iceoryx2_bb_lock_free::mpmc::counting_bit_set::FixedSizeCountingBitSet;
 
 /// BitSet history: set(id) / reset_next() / reset_all() vs a bit-mask model
-proof!(12, fn c05_bitset_history() {
+fn bitset_history<const STEPS: usize>() {
     const CAP: usize = 10;
     let s = FixedSizeBitSet::<CAP>::new();
     assert!(s.capacity() == CAP);
     let mut m: u32 = 0;
     let mut crossed = false;
     let mut step = 0;
-    while step < 4 {
+    while step < STEPS {
         let op: u8 = kani::any();
         let id: usize = kani::any();
         kani::assume(id < CAP);
@@ -54,7 +54,10 @@ proof!(12, fn c05_bitset_history() {
     assert!(got == m, "c05: final drain differs from the model");
     kani::cover!(crossed && m != 0, "an id beyond the first 8-bit element is pending at the end");
     canaries();
-});
+}
+
+proof!(12, fn c05_bitset_history() { bitset_history::<3>(); });
+proof!(12, fn c05_bitset_history_deep() { bitset_history::<4>(); });
 
 /// CountingBitSet history: set(id) returns the previous count, reset_all reports exact counts
 proof!(8, fn c05_counting_bitset_history() {
@@ -101,7 +104,6 @@ pub mod sched {
     use super::*;
     use iceoryx2_pal_concurrency_sync::verif_atomic::{verif_clear_hook, verif_set_hook};
 
-    const CAP: usize = 10;
     const MAXSET: usize = 3;
     const DRAINS: usize = 3;
 
@@ -121,10 +123,6 @@ pub mod sched {
         set_id: [0; MAXSET], set_begin: [0; MAXSET], set_end: [0; MAXSET] };
     pub static mut BPTR: usize = 1;
 
-    unsafe fn bs() -> &'static FixedSizeBitSet<CAP> {
-        &*(BPTR as *const FixedSizeBitSet<CAP>)
-    }
-
     fn tick() -> u32 {
         unsafe {
             BOOK.clock += 1;
@@ -132,7 +130,7 @@ pub mod sched {
         }
     }
 
-    pub fn hook_notifier() {
+    pub fn hook_notifier<const CAP: usize>() {
         unsafe {
             if BOOK.in_inner == 1 {
                 return;
@@ -141,11 +139,12 @@ pub mod sched {
             if BOOK.budget > 0 && kani::any::<bool>() {
                 BOOK.budget -= 1;
                 let id: usize = kani::any();
-                kani::assume(id == 1 || id == 8 || id == 9);
+                // capacity 10: ids on both sides of the 8-bit element boundary
+                kani::assume(id < CAP && (CAP < 10 || id == 1 || id == 8 || id == 9));
                 let n = BOOK.nset;
                 BOOK.set_id[n] = id;
                 BOOK.set_begin[n] = tick();
-                bs().set(id);
+                (*(BPTR as *const FixedSizeBitSet<CAP>)).set(id);
                 BOOK.set_end[n] = tick();
                 BOOK.nset += 1;
                 if BOOK.mid == 1 {
@@ -156,42 +155,48 @@ pub mod sched {
         }
     }
 
-    /// listener drains (reset_all, reset_next, reset_all) while notifiers set ids at any of its
-    /// shared-memory operations.
-    ///  * no lost notification: a set() that completed before drain k began is delivered by some
-    ///    drain m <= k that ended after the set completed;
+    /// The listener drains while notifiers set ids at any of its shared-memory operations; the
+    /// last drain is a quiescent reset_all.  PLAN 0: reset_all*, reset_all;  PLAN 1: reset_next*,
+    /// reset_all;  PLAN 2: reset_all*, reset_next*, reset_all  (* = notifications may land inside).
+    ///  * no lost notification: a set() that completed before a reset_all drain k began is
+    ///    delivered by some drain m <= k that ended after the set completed;
+    ///  * reset_next finds something whenever a completed notification was pending when it began;
     ///  * no phantom: every delivered id was set by a set() that began before that drain ended,
     ///    and an id is never delivered more often than it was set.
-    proof!(12, fn c05_s_bitset_drain_race() {
+    fn drain_race<const CAP: usize, const PLAN: u8>(nset: usize) {
         let s = FixedSizeBitSet::<CAP>::new();
+        let ndr: usize = if PLAN == 2 { 3 } else { 2 };
+        let next_at: usize = match PLAN { 1 => 0, 2 => 1, _ => 9 };
         unsafe {
             BPTR = &s as *const _ as usize;
-            BOOK.budget = MAXSET;
-            hook_notifier(); // optionally one notification before the first drain
-            verif_set_hook(hook_notifier);
+            BOOK.budget = nset;
+            hook_notifier::<CAP>(); // optionally one notification before the first drain
+            verif_set_hook(hook_notifier::<CAP>);
             let mut begin = [0u32; DRAINS];
             let mut end = [0u32; DRAINS];
             let mut got = [[false; CAP]; DRAINS];
             let mut k = 0;
             while k < DRAINS {
-                if k == DRAINS - 1 {
-                    verif_clear_hook(); // final quiescent drain
-                }
-                begin[k] = tick();
-                BOOK.mid = 1;
-                if k == 1 {
-                    if let Some(i) = s.reset_next() {
-                        got[k][i] = true;
+                if k < ndr {
+                    if k == ndr - 1 {
+                        verif_clear_hook(); // final quiescent drain
                     }
-                } else {
-                    let g = &mut got[k];
-                    s.reset_all(|i| {
-                        assert!(!g[i], "c05: reset_all delivered an id twice");
-                        g[i] = true;
-                    });
+                    begin[k] = tick();
+                    BOOK.mid = 1;
+                    if k == next_at {
+                        if let Some(i) = s.reset_next() {
+                            got[k][i] = true;
+                        }
+                    } else {
+                        let g = &mut got[k];
+                        s.reset_all(|i| {
+                            assert!(!g[i], "c05: reset_all delivered an id twice");
+                            g[i] = true;
+                        });
+                    }
+                    BOOK.mid = 2;
+                    end[k] = tick();
                 }
-                BOOK.mid = 2;
-                end[k] = tick();
                 k += 1;
             }
             // no lost notification
@@ -201,9 +206,9 @@ pub mod sched {
                     let id = BOOK.set_id[n];
                     let mut k = 0;
                     while k < DRAINS {
-                        // reset_next (drain 1) delivers at most one id: only reset_all drains are
-                        // obliged to deliver everything that was pending when they began
-                        if k != 1 && begin[k] > BOOK.set_end[n] {
+                        // reset_next delivers at most one id: only reset_all drains are obliged to
+                        // deliver everything that was pending when they began
+                        if k < ndr && k != next_at && begin[k] > BOOK.set_end[n] {
                             let mut ok = false;
                             let mut m = 0;
                             while m < DRAINS {
@@ -220,19 +225,29 @@ pub mod sched {
                 n += 1;
             }
             // reset_next must find something if anything was pending when it began
-            {
+            if next_at < DRAINS {
                 let mut pending_before = false;
                 let mut n = 0;
                 while n < MAXSET {
-                    if n < BOOK.nset && BOOK.set_end[n] < begin[1] && !(end[0] > BOOK.set_end[n] && got[0][BOOK.set_id[n]]) {
-                        pending_before = true;
+                    if n < BOOK.nset && BOOK.set_end[n] < begin[next_at] {
+                        let mut delivered_earlier = false;
+                        let mut m = 0;
+                        while m < DRAINS {
+                            if m < next_at && end[m] > BOOK.set_end[n] && got[m][BOOK.set_id[n]] {
+                                delivered_earlier = true;
+                            }
+                            m += 1;
+                        }
+                        if !delivered_earlier {
+                            pending_before = true;
+                        }
                     }
                     n += 1;
                 }
                 let mut found = false;
                 let mut i = 0;
                 while i < CAP {
-                    if got[1][i] {
+                    if got[next_at][i] {
                         found = true;
                     }
                     i += 1;
@@ -276,5 +291,9 @@ pub mod sched {
             kani::cover!(BOOK.set_mid >= 2, "two notifications landed in the middle of drains");
         }
         canaries();
-    });
+    }
+
+    proof!(12, fn c05_s_reset_all_race() { drain_race::<10, 0>(2); });
+    proof!(6, fn c05_s_reset_next_race() { drain_race::<3, 1>(2); });
+    proof!(12, fn c05_s_bitset_drain_race() { drain_race::<10, 2>(3); });
 }
